@@ -124,6 +124,10 @@ func parseThis(graphBuilder *AuthorizationModelGraphBuilder, parentNode graph.No
 		directlyRelated = relationMetadata.GetDirectlyRelatedUserTypes()
 	}
 
+	// the edges of THIS direct assignment, by source node: a direct assignment written twice under one operator
+	// ([user] but not [user], JSON only) gets its own edges, like any other repeated operand
+	ownEdges := make(map[int64]*AuthorizationModelEdge, len(directlyRelated))
+
 	for _, directlyRelatedDef := range directlyRelated {
 		// per restriction: a restriction that is neither a type, a wildcard nor a userset (e.g. a
 		// relation reference with an empty relation) must not reuse the node of the previous one
@@ -148,13 +152,28 @@ func parseThis(graphBuilder *AuthorizationModelGraphBuilder, parentNode graph.No
 		}
 
 		if curNode == nil {
-			// nothing to draw (a typed nil would also slip through the nil check of upsertEdge)
+			// nothing to draw (a typed nil would also slip through the nil check of AddEdge)
 			continue
 		}
 
 		// de-dup types that are conditioned, e.g. if define viewer: [user, user with condX]
 		// we only draw one edge from user to x#viewer, but with two conditions: none and condX
-		graphBuilder.upsertEdge(curNode, parentNode, DirectEdge, "", directlyRelatedDef.GetCondition())
+		condition := directlyRelatedDef.GetCondition()
+		if condition == "" {
+			condition = NoCond
+		}
+
+		if edge, ok := ownEdges[curNode.ID()]; ok {
+			if !slices.Contains(edge.conditions, condition) {
+				edge.conditions = append(edge.conditions, condition)
+			}
+
+			continue
+		}
+
+		if edge := graphBuilder.AddEdge(curNode, parentNode, DirectEdge, "", []string{condition}); edge != nil {
+			ownEdges[curNode.ID()] = edge
+		}
 	}
 }
 
@@ -270,49 +289,6 @@ func (g *AuthorizationModelGraphBuilder) AddEdge(from, to graph.Node, edgeType E
 	g.SetLine(newLine)
 
 	return newLine
-}
-
-func (g *AuthorizationModelGraphBuilder) upsertEdge(from, to graph.Node, edgeType EdgeType, tuplesetRelation string, condition string) {
-	if from == nil || to == nil {
-		return
-	}
-
-	iter := g.Lines(from.ID(), to.ID())
-	for iter.Next() {
-		l := iter.Line()
-		edge, _ := l.(*AuthorizationModelEdge)
-		if edge.edgeType == edgeType && edge.tuplesetRelation == tuplesetRelation {
-			for _, cond := range edge.conditions {
-				if cond == condition {
-					return
-				}
-			}
-			edge.conditions = append(edge.conditions, condition)
-			return
-		}
-	}
-
-	if condition == "" {
-		condition = NoCond
-	}
-	g.AddEdge(from, to, edgeType, tuplesetRelation, []string{condition})
-}
-
-func (g *AuthorizationModelGraphBuilder) hasEdge(from, to graph.Node, edgeType EdgeType, tuplesetRelation string) bool {
-	if from == nil || to == nil {
-		return false
-	}
-
-	iter := g.Lines(from.ID(), to.ID())
-	for iter.Next() {
-		l := iter.Line()
-		edge, _ := l.(*AuthorizationModelEdge)
-		if edge.edgeType == edgeType && edge.tuplesetRelation == tuplesetRelation {
-			return true
-		}
-	}
-
-	return false
 }
 
 func typeAndRelationExists(model *openfgav1.AuthorizationModel, typeName, relation string) bool {
